@@ -177,7 +177,6 @@ class NativeEval:
         cuda = self.kind == "cusparse"
         rt = '#include "rt_boost.h"' if odeint else ('#include "rt_cuda.h"' if cuda else '#include "rt_cvode.h"')
         real_call = 'EvalRates(k, y, &d); for (int i = 0; i < NREACTIONS; i++) printf("k %d %.17g\\n", i, k[i]);' if self.real_rates else ""
-        real_call = real_call.replace("%", "%%")
         drv = DRIVER_COMMON % {"rt": rt, "rates_override": "" if self.real_rates else RATES_OVERRIDE, "fill": fill}
         drv += (MAIN_ODEINT if odeint else (MAIN_CUDA if cuda else MAIN_CVODE)) % {"dense": 1 if self.kind == "dense" else 0, "real_rates_call": real_call}
         dp = os.path.join(bdir, "driver.cpp")
@@ -229,6 +228,10 @@ class NativeEval:
         """all inputs are floats; returns dict with ydot, J (dict), aux, csr, oob"""
         exe = self.build()
         data = data or {}
+        m = self.project.macros(self.tdir)
+        k = list(k) + [0.0] * (m["NREACTIONS"] - len(k))
+        kh = list(kh) + [0.0] * (m.get("NHEATPROCS", 0) - len(kh))
+        kc = list(kc) + [0.0] * (m.get("NCOOLPROCS", 0) - len(kc))
         vals = list(y) + list(k) + list(kh) + list(kc) + [data.get(f, 1.0) for f in self.fields] + [npar, mu, gamma]
         inp = "\n".join(repr(float(v)) for v in vals) + "\n"
         r = subprocess.run([exe], input=inp, capture_output=True, text=True, timeout=120)
